@@ -11,6 +11,23 @@ CLAIMED = {
             'histories of any length.',
             'floats modelled as reals; bounds on channel count; z3, symx operator overloading, numpy object dispatch trusted',
             'DESIGN.md §2 C01'),
+    'C02': ('symx',
+            'bounded symbolic execution of the real element __call__ methods with z3; cross-multiplied monotonicity obligations; '
+            'models replayed on the float code',
+            'From an arbitrary valid state, one real element call (Roadm, Fused, Fiber with real NliSolver, every Edfa type_def); z3 '
+            'decides GSNR/OSNR_ASE/SNR_NLI non-increase, equality for passive elements, ASE-only for amplifiers, NLI-only for fibres, '
+            'for all powers/splits/gains/losses within the bound (k<=3; 4 thorough).',
+            'floats as reals; Raman off; flat amplifier profile; concrete fibre types; z3 and symx trusted',
+            'DESIGN.md §2 C02'),
+    'C06': ('symx',
+            'bounded symbolic execution of Roadm.propagate / target resolution / policy plumbing with z3 (exact dB algebra in '
+            'log-linear normal form); models replayed on the float code',
+            'Roadm.__call__ for 3 node policies x 4 per-degree overrides with symbolic targets, offsets, per-band max-loss and '
+            'input powers: output = min(target*offset, input/loss) and never above input on all 2^k*2 paths; single-policy '
+            'enforcement through network_from_json/RoadmParams/json_io.Roadm for every subset of keys; per-degree target '
+            'population for every value of the node default.',
+            'floats as reals; k<=3 (4 thorough); fixed baud/slot mix; z3 and symx trusted',
+            'DESIGN.md §2 C06'),
 }
 
 PENDING_REASON = 'check not built yet in this session (solver-based harness planned in DESIGN.md §2); not claimed until it runs clean'
